@@ -96,12 +96,20 @@ def NSeries.setItem (s : NSeries α) (f ty : String) (v : FlatVal α) (valueInde
 
 /-! ### series/packer.py -/
 
-/-- `pd.Index.duplicated(keep="first")`. -/
-def duplicatedFirst : List Label → List Bool :=
-  let rec go (seen : List Label) : List Label → List Bool
-    | [] => []
-    | l :: ls => seen.contains l :: go (l :: seen) ls
-  go []
+/-- `pd.Index.duplicated(keep="first")`, for any label type: an element is a duplicate when an
+    equal element occurred before it. -/
+def dupFirstGo {β : Type} [BEq β] (seen : List β) : List β → List Bool
+  | [] => []
+  | l :: ls => seen.contains l :: dupFirstGo (l :: seen) ls
+
+def dupFirstGen {β : Type} [BEq β] (labels : List β) : List Bool := dupFirstGo [] labels
+
+def duplicatedFirst : List Label → List Bool := dupFirstGen
+
+/-- offsets of the runs of a label sequence (`calculate_sorted_index_offsets` without the
+    monotonicity check): positions of the first occurrences, then the length. -/
+def packOffsets {β : Type} [BEq β] (labels : List β) : List Nat :=
+  nonzeroFrom 0 ((dupFirstGen labels).map (!·)) ++ [labels.length]
 
 def isMonotone : List Label → Bool
   | a :: b :: rest => a.le b && isMonotone (b :: rest)
@@ -110,7 +118,7 @@ def isMonotone : List Label → Bool
 /-- `calculate_sorted_index_offsets` (packer.py:316-341). -/
 def calculateSortedIndexOffsets (index : List Label) : R (List Nat) :=
   if ¬ isMonotone index then .error .valueError
-  else pure (nonzeroFrom 0 ((duplicatedFirst index).map (!·)) ++ [index.length])
+  else pure (packOffsets index)
 
 /-- `pack_sorted_df_into_struct` (packer.py:142-167) = `view_sorted_df_as_list_arrays` +
     `pack_lists(validate=False)`: zero-copy list views over the flat columns. -/
